@@ -463,6 +463,52 @@ theorem getChunk_spec (raw : List (Nat × Nat × Nat)) (h : RawOK raw) (cmax c :
   rw [hfs, ← hcalc, spcOf_of_inEntry h hin]
   simp [Stsc.getChunk, hc0, ofRaw_getElem? h hw hin.lt]
 
+/-- description id of chunk `c` (1-based): that of the last entry whose first_chunk ≤ c -/
+def sdiOf (raw : List (Nat × Nat × Nat)) (c : Nat) : Nat :=
+  ((raw.filter fun e => e.1 ≤ c).getLast?.map (·.2.2)).getD 0
+
+theorem sdiOf_of_inEntry {raw} (h : RawOK raw) {j c} (hin : InEntry raw j c) :
+    sdiOf raw c = (raw.getD j (0, 0, 0)).2.2 := by
+  have hj := hin.lt
+  have e1 : (raw.take (j + 1)).filter (fun e => decide (e.1 ≤ c)) = raw.take (j + 1) := by
+    rw [List.filter_eq_self]
+    intro a ha
+    rw [List.mem_take_iff_getElem] at ha
+    obtain ⟨i, hi, rfl⟩ := ha
+    have hi' : i < raw.length := by omega
+    have := fcAt_le h (i := i) (j := j) (by omega) hj
+    rw [fcAt_eq hi'] at this
+    have := hin.lo
+    simp; omega
+  have e2 : (raw.drop (j + 1)).filter (fun e => decide (e.1 ≤ c)) = [] := by
+    rw [List.filter_eq_nil_iff]
+    intro a ha
+    rw [List.mem_drop_iff_getElem] at ha
+    obtain ⟨i, hi, rfl⟩ := ha
+    have hi' : j + 1 + i < raw.length := by omega
+    have := fcAt_le h (i := j + 1) (j := j + 1 + i) (by omega) hi'
+    rw [fcAt_eq hi'] at this
+    have := hin.hi (by omega)
+    simp; omega
+  unfold sdiOf
+  conv => lhs; rw [← List.take_append_drop (j + 1) raw]
+  rw [List.filter_append, e1, e2, List.append_nil, List.take_succ_eq_append_getElem hj, List.getLast?_concat]
+  simp [List.getD_eq_getElem?_getD, hj]
+
+/-- `GetSampleDescriptionID(chunkNr)`: the description id of the stsc entry the chunk belongs to -/
+theorem getSampleDescriptionID_spec (raw : List (Nat × Nat × Nat)) (h : RawOK raw) (cmax c : Nat) (hw : NoWrap raw cmax)
+    (h1 : 1 ≤ c) (_hc : c ≤ cmax) :
+    (Stsc.ofRaw raw).getSampleDescriptionID c = some (sdiOf raw c) := by
+  have hin := findEntryForChunk_spec h hw h1
+  rw [sdiOf_of_inEntry h hin]
+  have hsdi : (Stsc.ofRaw raw).sdi = raw.map (·.2.2) := rfl
+  unfold Stsc.getSampleDescriptionID
+  rw [hsdi]
+  generalize (Stsc.ofRaw raw).findEntryForChunk c = j at hin
+  have hj := hin.lt
+  rw [ofRaw_getElem? h hw hj]
+  simp [List.getD_eq_getElem?_getD, hj]
+
 /-- `ChunkNrFromSampleNr`: the chunk that contains sample `n`, and that chunk's first sample -/
 theorem chunkNrFromSampleNr_spec (raw : List (Nat × Nat × Nat)) (h : RawOK raw) (cmax c n : Nat) (hw : NoWrap raw cmax)
     (h1 : 1 ≤ c) (hc : c ≤ cmax) (hlo : firstSampleOf raw c ≤ n) (hhi : n < firstSampleOf raw (c + 1)) :
